@@ -9,6 +9,7 @@ errno and at least one single-line message, leaves a usable destination and no
 leak; a succeeding load yields a self-consistent object that can be saved and
 re-loaded to the same content.
 """
+import json
 import math
 import os
 import sys
@@ -134,7 +135,18 @@ def collect_seeds(binary, workroot, seed):
 # ----------------------------------------------------------------------
 # case scripts
 # ----------------------------------------------------------------------
-def case_script(name, data, use_f):
+# contents a destination may hold before the load ("loaded whole": what a
+# successful load leaves must not depend on them)
+USED = ["vnadata_init $vd Z 1 1 2\nvnadata_set_frequency_vector $vd auto\n"
+        "vnadata_set_matrix $vd 0 auto\nvnadata_set_matrix $vd 1 auto",
+        "vnadata_init $vd S 3 3 1\nvnadata_set_matrix $vd 0 auto\n"
+        "vnadata_set_fz0 $vd 0 2 0x1.2cp+6 0x1p+1",
+        "vnadata_init $vd H 2 2 5\nvnadata_set_frequency_vector $vd auto\n"
+        "vnadata_set_matrix $vd 4 auto\nvnadata_set_z0 $vd 1 0x1.2cp+6 0x0p+0",
+        "vnadata_init $vd ZIN 1 4 2\nvnadata_set_frequency_vector $vd auto"]
+
+
+def case_script(name, data, use_f, used=None):
     s = Script()
     L = {}
     ext = os.path.splitext(name)[1]
@@ -143,6 +155,15 @@ def case_script(name, data, use_f):
     if kind == "vnadata":
         s.op("write_file %s %s" % (qs(inp), qs(data)))
         s.op("vd=vnadata_alloc")
+        if used is not None:
+            for ln in USED[used % len(USED)].split("\n"):
+                s.op(ln)
+            # the same file into a fresh object: the reference
+            s.op("vf=vnadata_alloc")
+            L["loadfresh"] = s.op("%s $vf %s" % (
+                "vnadata_fload" if use_f else "vnadata_load", qs(inp)))
+            L["dumpfresh"] = s.op("dump_vnadata $vf")
+            s.op("vnadata_free $vf")
         L["load"] = s.op("%s $vd %s" % ("vnadata_fload" if use_f else
                                         "vnadata_load", qs(inp)))
         L["dump"] = s.op("dump_vnadata $vd")
@@ -238,6 +259,12 @@ def judge(name, data, text, L, kind, res, part):
         return False
     failed = (ev["ret"] == -1 or ev["ret"] is None)
     cbs = ev.get("cb", [])
+    if failed and "loadfresh" in L:
+        ef = res.ev(L["loadfresh"])
+        if ef is not None and ef.get("ret") == 0:
+            bad("outcome-depends-on-destination",
+                "the file loads into a fresh object but not into a used one: "
+                "%s" % str(ev)[:300])
     if failed:
         cnt["rejected:" + kind] = cnt.get("rejected:" + kind, 0) + 1
         part["distinct"].add((kind, "fail", cbs[0][1][-40:] if cbs else ""))
@@ -267,6 +294,30 @@ def judge(name, data, text, L, kind, res, part):
         return True
     # ---- success
     cnt["accepted:" + kind] = cnt.get("accepted:" + kind, 0) + 1
+    if "loadfresh" in L:
+        # loaded whole: the same file gives the same object whatever the
+        # destination held before (precisions are not part of a load)
+        ef, df, du = res.ev(L["loadfresh"]), res.ev(L["dumpfresh"]), \
+            res.ev(L["dump"])
+        if ef is not None and df is not None and du is not None and \
+                "out" in df and "out" in du:
+            cnt["reused_destination_loads"] = cnt.get(
+                "reused_destination_loads", 0) + 1
+            if ef.get("ret") != 0:
+                bad("outcome-depends-on-destination",
+                    "the file loads into a used object but not into a fresh "
+                    "one: %s" % str(ef)[:300])
+            else:
+                a = {k: v for k, v in df["out"].items()
+                     if k not in ("fprec", "dprec")}
+                b = {k: v for k, v in du["out"].items()
+                     if k not in ("fprec", "dprec")}
+                if json.dumps(a, sort_keys=True) != json.dumps(b,
+                                                               sort_keys=True):
+                    bad("result-depends-on-destination",
+                        "the same file loaded into a fresh object and into "
+                        "one that held other data:\n fresh %s\n used  %s" % (
+                            str(a)[:600], str(b)[:600]))
     for c in cbs:
         if c[0] != "WARNING":
             bad("message-on-success", "loader succeeded but called the error "
@@ -426,7 +477,8 @@ def work(chunk_id, payload):
             d = seeds[nm]   # unmutated: must load
         inputs.append((nm_, d[:20000], "mut"))
     for k, (nm, d, how) in enumerate(inputs):
-        text, L, kind = case_script(nm, d, use_f=(k % 3 == 0))
+        text, L, kind = case_script(nm, d, use_f=(k % 3 == 0),
+                                    used=(k // 2 if k % 2 else None))
         cid = "i%d_%d" % (chunk_id, k)
         cases.append((cid, text))
         meta[cid] = (nm, d, L, kind)
